@@ -501,8 +501,16 @@ Definition topt_sets (o : option (list (list nat))) : tok :=
 
 Definition all_subsets (n : nat) : list (list nat) := flat_map (fun k => combs k (seq 0 n)) (seq 1 n).
 
-Definition run_net (n : nat) (rs : list rxn) (und : bool) (k : nat) (cands : list (list nat)) : tok :=
-  let G0 := bipartite_of n rs in
+(** a caller-supplied graph whose species nodes were INSERTED in the order [order] (a permutation of the ranks; [[]] = label order,
+    as the hypergraph export does); node ids, reaction nodes and arcs as in the export *)
+Definition with_species_order (order : list nat) (G : bgraph) : bgraph :=
+  match order with
+  | [] => G
+  | _ => BG (map (fun i => (sp_node i, i)) order) (g_reactions G) (g_arcs G)
+  end.
+
+Definition run_net (n : nat) (rs : list rxn) (und : bool) (k : nat) (cands : list (list nat)) (order : list nat) : tok :=
+  let G0 := with_species_order order (bipartite_of n rs) in
   let G := if und then orient_undirected (undirected_view G0) else G0 in
   if split_ok G then
     let sns := species_nodes_sorted G in
